@@ -46,6 +46,44 @@ CLAIMED = {
             "input and within bounds on the stated domain; old guard counter-witness (fixed F-C07-a).",
             "4/C07", "the dims-th root is an arbitrary factor r with r >= 1 and r^dims >= largest product (checked by the driver on "
             "the code's float32 factor); float32 layer, tolerance 1e-4. "),
+    "C09": ("Lean 4 theorems on an explicit multi-unit model (units as trailing axis; index-set lemma + slice commutation for "
+            "every strict stage, the Dykstra schedule and the whole LatticeConstraints.__call__; per-column lemmas for "
+            "PWL/Linear/KFL) + exact-rational correspondence of the multi-unit model + real-vs-real differential (per-unit, unit "
+            "permutation, row/batch) with x1/x100/x0.01 column magnitudes",
+            "Theorems (Props/C09.lean), all configurations/unit counts/kernels: every multi-unit reduction and reshape named by the "
+            "anchors acts on unit u exactly as the one-unit model of C01/C04/C06/C07 acts on the unit-u slice (finalize_per_unit, "
+            "dykstra_per_unit, lattice_constraint_per_unit, pwl/linear/kfl per-unit lemmas); unit permutations follow. Row "
+            "independence is structural in the model and established on the code by the real-vs-real tie for every layer kind, CDF, "
+            "the functional forms, ParallelCombination, Aggregation, RTL and premade models.",
+            "4/C09", "categorical, convexity stages and forward passes have no explicit-axis model: covered by the real-vs-real tie. "),
+    "C10": ("Lean 4 theorems on executable initialiser models (linspace/valley/peak profiles, min/max of the outer sum, BFS "
+            "level-order invariant for random-monotonic, reuse of C07 premises and C01/C12 fixpoint/acceptance lemmas) + "
+            "exact-rational correspondence with recorded random draws + oracle on freshly built layers",
+            "Theorems (Props/C10.lean), every size/rank/bound and every permutation/sample (hence every seed): lattice linear init "
+            "is linear along monotone dims, valley/peak along unimodal dims, constant along the others with min = init_min, max = "
+            "init_max; random-monotonic init is non-decreasing along every axis and in range; PWL initialisers (equal heights / "
+            "slopes, decreasing); KFL init meets C07's premises; monotonicity+bounds-only constraint leaves the init unchanged and "
+            "the C12 assert model accepts it.",
+            "4/C10", "initial weights of layers outside the statement's list are known findings: F-C03-b (categorical pairs), "
+            "F-C10-a/b/c (one-sided categorical bound, all-joint-unimodal lattice, Linear random_uniform), F-C10-d (lattice "
+            "initialisers ignore trusts/dominances, so assert_constraints fails right after construction). "),
+    "C14": ("Lean 4 theorems (sum/product exchange via C02's multilinear interpolant; list inductions on cumsum/diffs; row-major "
+            "reshape arithmetic) on executable models reusing Kfl/LatticeEval/PwlEval + paired differential of the REAL callables + "
+            "correspondence vs the native driver",
+            "Theorems (Props/C14.lean), all sizes/terms/kernels/points and arbitrary softmax/sigmoid: KFL = Lattice on the dense "
+            "kernel; pwl_calibration_fn = PWLCalibration on the derived keypoints/weights (fixed and learned_interior, missing, "
+            "cyclic); cdf_fn = CDF.call for 'mean'/'none' with the sparsity gather explicit; ParallelCombination column-wise, "
+            "Aggregation = per-example ragged mean, RTL = gather into its lattices.",
+            "4/C14", "float32 paths compared at rtol 1e-4..1e-5; sigmoid CDF cases are real-vs-real only. "),
+    "C15": ("Lean 4 theorems for ANY positive softmax-like / monotone [0,1] sigmoid-like function (reduction to C05 through C14), "
+            "exact relu6 CDF model, geometric mean over the reals (Mathlib exp/log) + correspondence and clause-by-clause oracle "
+            "on real pwl_calibration_fn / cdf_fn / CDF",
+            "Theorems (Props/C15.lean): pwl_calibration_fn within [output_min, output_max] at every input, all-pairs monotone when "
+            "increasing, exact clamp ends, cyclic ends, missing path, output_param_size bookkeeping for every mode, None interior "
+            "parameters accepted; CDF / cdf_fn outputs in [0,1], geometric mean in [eps, 1+eps], monotone in every input for "
+            "non-negative scaling; NonNeg constraint proved sufficient.",
+            "4/C15", "hypotheses input_min < input_max (F-C15-d) and >= 1 keypoint (F-C15-e); float32 softmax underflow is F-C15-b; "
+            "the documented unit-broadcast call form is rejected (F-C15-c). "),
     "C12": ("Lean 4 iff-theorems (reduce_min/max <-> forall) on executable models of every assert_constraints + accept/reject "
             "differential on LP-generated feasible / single-violation / exact-threshold kernels",
             "Theorems (Props/C12.lean): accepts = true <-> every covered constraint has slack >= -eps, for categorical, linear "
